@@ -106,7 +106,20 @@ FamRouting == { [Base EXCEPT !.jobs[1].tasks[1].places[1].loc = a, !.jobs[2].tas
 FamEmpty == { [Base EXCEPT !.jobs = <<>>], [Base EXCEPT !.vehicles = <<>>], [Base EXCEPT !.jobs = <<>>, !.vehicles = <<>>],
               [Base EXCEPT !.vehicles[1].ids = <<>>], [Base EXCEPT !.vehicles[1].cap = <<>>], [Base EXCEPT !.vehicles[1].cap = <<10, 5>>],
               [Base EXCEPT !.vehicles[1].cap = <<0>>], [Base EXCEPT !.vehicles[1].cap = <<0 - 1>>] }
-Families == << <<"windows", FamWindows>>, <<"demand", FamDemand>>, <<"ids", FamIds>>, <<"duration", FamDuration>>, <<"vehicles", FamVehicles>>,
+\* ---- cross: a job family, a fleet family and an objective list vary TOGETHER (a rule that stops the walk, or one report that
+\* replaces another, only shows when two rules are broken at once).  A deterministic sample of each family (every n-th document
+\* of TLC's enumeration order, shifted by the run's seed), all combinations of the samples.
+SeedN == IF "SEED" \in DOMAIN IOEnv THEN atoi(IOEnv.SEED) ELSE 1
+PickOf(S, k) == LET q == SetToSeq(S) n == Len(q) IN
+                { q[1 + ((j * (n \div k + 1) + SeedN * 7) % n)] : j \in 1..k }
+CrossN == IF Thorough THEN 60 ELSE 24
+CrossJobs == PickOf(FamWindows \cup FamDemand \cup FamIds \cup FamDuration, CrossN)
+CrossFleet == PickOf(FamShifts \cup FamBreaks \cup FamReloads \cup FamVehicles, CrossN)
+CrossObjs == PickOf({ d \in FamObjectives : d.hasObjectives }, IF Thorough THEN 6 ELSE 3) \cup {Base}
+FamCross == { [a EXCEPT !.vehicles = b.vehicles, !.profiles = b.profiles, !.matrices = b.matrices, !.hasResources = b.hasResources, !.resources = b.resources,
+                       !.hasObjectives = c.hasObjectives, !.objectives = c.objectives] :
+              a \in CrossJobs, b \in CrossFleet, c \in CrossObjs }
+Families == << <<"cross", FamCross>>, <<"windows", FamWindows>>, <<"demand", FamDemand>>, <<"ids", FamIds>>, <<"duration", FamDuration>>, <<"vehicles", FamVehicles>>,
                <<"shifts", FamShifts>>, <<"breaks", FamBreaks>>, <<"reloads", FamReloads>>, <<"relations", FamRelations>>,
                <<"objectives", FamObjectives>>, <<"routing", FamRouting>>, <<"empty", FamEmpty>> >>
 Docs == V_Flat([f \in 1..Len(Families) |-> LET ds == SetToSeq(Families[f][2]) IN [i \in 1..Len(ds) |-> [fam |-> Families[f][1], doc |-> ds[i]]]])
